@@ -1723,6 +1723,10 @@ outer:
 		if len(a.Elements) == len(b.Elements) && a.Inverted != b.Inverted {
 			return false
 		}
+		if len(a.Elements) < len(b.Elements) && a.Inverted {
+			// a demands that its last element does not match, b that it does (and more follows)
+			return false
+		}
 		*dcs = append((*dcs)[:i-1], (*dcs)[i:]...)
 		i--
 	}
